@@ -248,4 +248,140 @@ theorem tri_closest_in_box_aux (a b c v : P3) (hnd : 0 < ((b.Sub a).Cross (c.Sub
     · exact in2
     · exact in3
 
+section traverseMono
+variable {B E K : Type} [Preorder K]
+
+/-- `r ⊆ r'` for ranges `[min, max]` -/
+def rsub (r r' : K × K) : Prop := r'.1 ≤ r.1 ∧ r.2 ≤ r'.2
+
+theorem rsub_refl (r : K × K) : rsub r r := ⟨le_refl _, le_refl _⟩
+theorem rsub_trans {a b c : K × K} (h1 : rsub a b) (h2 : rsub b c) : rsub a c :=
+  ⟨le_trans h2.1 h1.1, le_trans h1.2 h2.2⟩
+
+/-- a callback that records the element and may move the range, but only INTO the current range and never below `rstar` -/
+def MonoCallback (sh : E → K × K → List E → K × K) (rstar : K × K) : Prop :=
+  ∀ e rng acc, rsub rstar rng → rsub (sh e rng acc) rng ∧ rsub rstar (sh e rng acc)
+
+theorem traverse_elems_mono (slabE : E → K → K → Bool) (sh : E → K × K → List E → K × K) (rstar r0 : K × K)
+    (hsh : MonoCallback sh rstar) :
+    ∀ (es : List E), (∀ e ∈ es, ∀ r r', rsub r r' → slabE e r.1 r.2 = true → slabE e r'.1 r'.2 = true) →
+    ∀ (rng : K × K) (s : List E), rsub rstar rng → rsub rng r0 →
+      let st := es.foldl (fun (st : (K × K) × List E) e =>
+        if slabE e st.1.1 st.1.2 then (sh e st.1 st.2, e :: st.2) else st) (rng, s)
+      rsub rstar st.1 ∧ rsub st.1 r0 ∧ (∀ e ∈ s, e ∈ st.2) ∧
+      (∀ e ∈ st.2, e ∈ s ∨ (e ∈ es ∧ slabE e r0.1 r0.2 = true)) ∧
+      (∀ e ∈ es, slabE e rstar.1 rstar.2 = true → e ∈ st.2) := by
+  intro es
+  induction es with
+  | nil => intro _ rng s h1 h2; simp [h1, h2]
+  | cons x xs ih =>
+    intro hEr rng s h1 h2
+    have hErx := hEr x (List.mem_cons_self ..)
+    have ih := ih (fun e he => hEr e (List.mem_cons_of_mem _ he))
+    simp only [List.foldl_cons]
+    by_cases hx : slabE x rng.1 rng.2 = true
+    · simp only [hx, if_true]
+      obtain ⟨k1, k2⟩ := hsh x rng s h1
+      obtain ⟨a1, a2, a3, a4, a5⟩ := ih (sh x rng s) (x :: s) k2 (rsub_trans k1 h2)
+      refine ⟨a1, a2, fun e he => a3 e (List.mem_cons_of_mem _ he), ?_, ?_⟩
+      · intro e he
+        rcases a4 e he with h | ⟨h, h'⟩
+        · rcases List.mem_cons.mp h with rfl | h
+          · exact Or.inr ⟨List.mem_cons_self .., hErx _ _ h2 hx⟩
+          · exact Or.inl h
+        · exact Or.inr ⟨List.mem_cons_of_mem _ h, h'⟩
+      · intro e he hacc
+        rcases List.mem_cons.mp he with rfl | he
+        · exact a3 _ (List.mem_cons_self ..)
+        · exact a5 e he hacc
+    · have hx' : slabE x rng.1 rng.2 = false := by simpa using hx
+      simp only [hx', Bool.false_eq_true, if_false]
+      obtain ⟨a1, a2, a3, a4, a5⟩ := ih rng s h1 h2
+      refine ⟨a1, a2, a3, ?_, ?_⟩
+      · intro e he
+        rcases a4 e he with h | ⟨h, h'⟩
+        · exact Or.inl h
+        · exact Or.inr ⟨List.mem_cons_of_mem _ h, h'⟩
+      · intro e he hacc
+        rcases List.mem_cons.mp he with rfl | he
+        · have := hErx _ _ h1 hacc
+          rw [this] at hx'; cases hx'
+        · exact a5 e he hacc
+
+/-- `TraverseIntersectingRay` with a monotone callback (records the element; may shorten the range, never below `rstar`):
+    it visits only elements the exhaustive scan accepts for the INITIAL range, and it visits every element the scan
+    accepts for `rstar` — on any tree whose node tests are implied by the tests of the elements below (`Inv`). -/
+theorem traverse_mono_sandwich (slabB : B → K → K → Bool) (slabE : E → K → K → Bool)
+    (sh : E → K × K → List E → K × K) (rstar r0 : K × K) (hsh : MonoCallback sh rstar)
+    (R : B → E → Prop) (hR : ∀ b e, R b e → ∀ r : K × K, slabE e r.1 r.2 = true → slabB b r.1 r.2 = true) :
+    ∀ t : Oct B E, Inv R t →
+      (∀ e ∈ t.allElems, ∀ r r', rsub r r' → slabE e r.1 r.2 = true → slabE e r'.1 r'.2 = true) →
+      ∀ (rng : K × K) (s : List E), rsub rstar rng → rsub rng r0 →
+      (∀ e ∈ s, e ∈ t.traverse slabB slabE (fun e r a => (sh e r a, e :: a)) rng s) ∧
+      (∀ e ∈ t.traverse slabB slabE (fun e r a => (sh e r a, e :: a)) rng s,
+          e ∈ s ∨ (e ∈ t.allElems ∧ slabE e r0.1 r0.2 = true)) ∧
+      (∀ e ∈ t.allElems, slabE e rstar.1 rstar.2 = true →
+          e ∈ t.traverse slabB slabE (fun e r a => (sh e r a, e :: a)) rng s) := by
+  intro t
+  induction t using Oct.induct' with
+  | h b es cs ih =>
+    intro hinv hEr rng s h1 h2
+    have hroot := hinv.root
+    have hch := hinv.children
+    simp only [Oct.traverse]
+    by_cases hb : slabB b rng.1 rng.2 = true
+    · simp only [hb, Bool.not_true, Bool.false_eq_true, if_false]
+      obtain ⟨a1, a2, a3, a4, a5⟩ := traverse_elems_mono slabE sh rstar r0 hsh es
+        (fun e he => hEr e (by rw [Oct.allElems_node]; exact List.mem_append_left _ he)) rng s h1 h2
+      generalize es.foldl (fun (st : (K × K) × List E) e =>
+        if slabE e st.1.1 st.1.2 then (sh e st.1 st.2, e :: st.2) else st) (rng, s) = st at a1 a2 a3 a4 a5
+      -- the children, state threaded
+      have key : ∀ (l : List (Oct B E)), (∀ c ∈ l, c ∈ cs) → ∀ s' : List E,
+          (∀ e ∈ s', e ∈ l.foldl (fun s c => c.traverse slabB slabE (fun e r a => (sh e r a, e :: a)) st.1 s) s') ∧
+          (∀ e ∈ l.foldl (fun s c => c.traverse slabB slabE (fun e r a => (sh e r a, e :: a)) st.1 s) s',
+              e ∈ s' ∨ (e ∈ l.flatMap (fun c => c.allElems) ∧ slabE e r0.1 r0.2 = true)) ∧
+          (∀ e ∈ l.flatMap (fun c => c.allElems), slabE e rstar.1 rstar.2 = true →
+              e ∈ l.foldl (fun s c => c.traverse slabB slabE (fun e r a => (sh e r a, e :: a)) st.1 s) s') := by
+        intro l
+        induction l with
+        | nil => intro _ s'; simp
+        | cons c l ihl =>
+          intro hl s'
+          simp only [List.foldl_cons, List.flatMap_cons, List.mem_append]
+          obtain ⟨c1, c2, c3⟩ := ih c (hl c (by simp)) (hch c (hl c (by simp)))
+            (fun e he => hEr e (Oct.mem_allElems_of_child (hl c (by simp)) he)) st.1 s' a1 a2
+          obtain ⟨d1, d2, d3⟩ := ihl (fun c' hc' => hl c' (by simp [hc']))
+            (c.traverse slabB slabE (fun e r a => (sh e r a, e :: a)) st.1 s')
+          refine ⟨fun e he => d1 e (c1 e he), ?_, ?_⟩
+          · intro e he
+            rcases d2 e he with h | ⟨h, h'⟩
+            · rcases c2 e h with h | ⟨h, h'⟩
+              · exact Or.inl h
+              · exact Or.inr ⟨Or.inl h, h'⟩
+            · exact Or.inr ⟨Or.inr h, h'⟩
+          · rintro e (he | he) hacc
+            · exact d1 e (c3 e he hacc)
+            · exact d3 e he hacc
+      obtain ⟨k1, k2, k3⟩ := key cs (fun c hc => hc) st.2
+      refine ⟨fun e he => k1 e (a3 e he), ?_, ?_⟩
+      · intro e he
+        rw [Oct.allElems_node]
+        rcases k2 e he with h | ⟨h, h'⟩
+        · rcases a4 e h with h | ⟨h, h'⟩
+          · exact Or.inl h
+          · exact Or.inr ⟨List.mem_append_left _ h, h'⟩
+        · exact Or.inr ⟨List.mem_append_right _ h, h'⟩
+      · intro e he hacc
+        rw [Oct.allElems_node] at he
+        rcases List.mem_append.mp he with he | he
+        · exact k1 e (a5 e he hacc)
+        · exact k3 e he hacc
+    · have hb' : slabB b rng.1 rng.2 = false := by simpa using hb
+      simp only [hb', Bool.not_false, if_true]
+      refine ⟨fun e he => he, fun e he => Or.inl he, ?_⟩
+      intro e he hacc
+      have := hR b e (hroot e he) rng (hEr e he rstar rng h1 hacc)
+      rw [this] at hb'; cases hb'
+end traverseMono
+
 end PolyVerif.Tree
